@@ -21,6 +21,8 @@ RULE = ('Hypothesis-generated histories of add_processor(new or previously remov
         'run exactly once and in order, removed or added ones at most once). Oracle: reference list kept sorted by the priority each instance had '
         'when added, insertion after equal keys, one entry per exact type; compared by identity with '
         'World.processors after every step and with the call log of every process(dt) (same dt object). '
+        ''
+        'In ~15% of the cases every re-add turns into a priority walk: the type is added 64-150 times over with priorities fanning out. '
         'Non-trivial = >= 3 processors alive at a process() with a priority tie, or an explicit priority 0 or '
         'negative overriding a different default, or a replacement of a same-type processor. Distinct = sha1 of '
         'canonical JSON.')
